@@ -45,7 +45,7 @@ def find_counterexample(pid, violations, seed, tier="quick"):
 FUZZ_SECONDS = {"quick": 45, "thorough": 300}
 
 
-def fuzz_search(pid, tier, binp):
+def fuzz_search(pid, tier, binp, seconds=None):
     """coverage-guided stage (libFuzzer with value profile, replay/fuzz): finds inputs that need specific constants.
     Only used after a failed/undecided proof when the random search found nothing.  Every artifact is re-checked
     natively with `replay case` before it is reported."""
@@ -63,7 +63,7 @@ def fuzz_search(pid, tier, binp):
     if rc != 0 or not os.path.isfile(exe):
         return {"reproduced": False, "kind": "fuzz", "error": "fuzz target does not build: " + se[-300:]}
     work = vlib.workdir()
-    secs = FUZZ_SECONDS.get(tier, 45)
+    secs = seconds or FUZZ_SECONDS.get(tier, 45)
 
     def one(name):
         d = os.path.join(work, "fuzz-" + name)
@@ -99,7 +99,18 @@ def crosscheck(pid, seed, tier):
         c.update({"reproduced": True, "kind": "search", "search_s": round(dt, 1)})
         return {"found": True, "seconds": round(dt, 1)}, c
     m = re.search(r"NONE evaluations=(\d+) distinct=(\d+)", out)
-    return {"found": False, "evaluations": int(m.group(1)) if m else 0, "distinct": int(m.group(2)) if m else 0, "seconds": round(dt, 1)}, None
+    summ = {"found": False, "evaluations": int(m.group(1)) if m else 0, "distinct": int(m.group(2)) if m else 0, "seconds": round(dt, 1)}
+    if tier == "thorough" and not os.environ.get("VERIF_NO_FUZZ"):
+        # thorough tier: the coverage-guided stage also runs as a cross-check (120 s per check function, in parallel)
+        try:
+            fz = fuzz_search(pid, tier, binp, seconds=120)
+        except Exception as e:
+            fz = {"reproduced": False, "error": str(e)[:200]}
+        summ["coverage_guided"] = {k: v for k, v in (fz or {}).items() if k in ("reproduced", "seconds", "checks", "error")}
+        if fz and fz.get("reproduced"):
+            summ["found"] = True
+            return summ, fz
+    return summ, None
 
 
 def replay_file(path):
